@@ -503,7 +503,8 @@ class Gen(object):
                 m = "publish"
             else:
                 st = {"op": "app.call", "addr": addr, "m": "connect", "a": ["again"],
-                      "k": {"cleanStart": rng.random() < 0.5}, "h": h}
+                      "k": {"cleanStart": rng.random() < 0.5,
+                            "version": {"$": "v31"} if self.cfg["version"] == 3 else {"$": "v311"}}, "h": h}
                 return st
         if m == "publish":
             return self.publish_step(addr, h=h)
